@@ -370,6 +370,150 @@ func (r *walRun) rollFailHistory() {
 	r.put(1 + rng.Intn(100))
 }
 
+var errInjectedGroup = errors.New("injected: cannot acquire the meta page of the consumer group")
+
+// createGroup: GetOrCreateConsumerGroup of a group that is not in the fan-out map; fail = the acquisition of its meta
+// page is made to fail (the environment's fault, announced as CreateGroupFail): the call must return that error
+func (r *walRun) createGroup(name string, fail bool) bool {
+	op := "CreateGroup"
+	if fail {
+		op = "CreateGroupFail"
+	}
+	r.rec.Emit("Op", trace.F{"t": "main", "op": op, "g": name})
+	g, err := r.fq.GetOrCreateConsumerGroup(name)
+	switch {
+	case fail && errors.Is(err, errInjectedGroup):
+		r.proj(nil)
+		return false
+	case err != nil:
+		r.rec.Emit("Error", trace.F{"op": op, "err": err.Error()})
+		return false
+	case fail:
+		r.rec.Emit("Error", trace.F{"op": op, "err": "the call succeeded although the meta page could not be acquired"})
+		return false
+	}
+	r.groups[name] = g
+	r.proj(nil)
+	return true
+}
+
+// ensureGroup: the group handle; created (an Op of the history) unless the fan-out map has it already (loaded by a reopen)
+func (r *walRun) ensureGroup(name string) queue.ConsumerGroup {
+	for _, n := range r.fq.ConsumerGroupNames() {
+		if n == name {
+			g, _ := r.fq.GetOrCreateConsumerGroup(name) // in the map: no store
+			r.groups[name] = g
+			return g
+		}
+	}
+	if !r.createGroup(name, false) {
+		panic(walAbort{})
+	}
+	return r.groups[name]
+}
+
+func (r *walRun) consume(name string) {
+	if g := r.groups[name]; g != nil && g.Pending() > 0 {
+		r.rec.Emit("Op", trace.F{"t": "main", "op": "Consume", "g": name})
+		s := g.Consume()
+		r.proj(trace.F{"t": "main", "res": s})
+	}
+}
+
+func (r *walRun) ack(name string, s int64) {
+	if g := r.groups[name]; g != nil {
+		r.rec.Emit("Op", trace.F{"t": "main", "op": "Ack", "g": name, "s": s})
+		g.Ack(s)
+		r.proj(nil)
+	}
+}
+
+func (r *walRun) syncGC() {
+	r.rec.Emit("Op", trace.F{"t": "main", "op": "Sync"})
+	r.fq.Sync()
+	r.proj(nil)
+	r.rec.Emit("Op", trace.F{"t": "main", "op": "GC"})
+	r.fq.Queue().GC()
+	r.proj(nil)
+}
+
+func (r *walRun) reopen() {
+	r.rec.Emit("Down", trace.F{"how": "close"})
+	r.fq.Close()
+	if err := r.open(); err != nil {
+		r.rec.Emit("Error", trace.F{"op": "Reopen", "err": err.Error()})
+		panic(walAbort{})
+	}
+	r.rec.Emit("Reopen", trace.F{})
+	r.proj(nil)
+}
+
+// groupFailHistory: the creation of a consumer group is disturbed between its two durable steps (directory made by
+// the page factory, then meta page file + first positions): the acquisition of the meta page fails once or twice
+// (open / truncate / mmap failure, e.g. disk full) and the caller retries in the same process - or the queue is
+// reopened on the directory that was left behind.  A second group is created undisturbed.  The history is imaged after
+// every store, so the kill between mkdir and page creation of both groups is recovered by the real code as well.
+// Then the usual life: appends, consume, acknowledge, Sync, GC, reads from the very first sequence, reopen, random ops.
+// (On a fresh queue the queue-wide acknowledged position is still -1: nothing hides a group that starts anywhere else
+// than before the first message.)
+func (r *walRun) groupFailHistory() {
+	rng := r.rng
+	q := r.fq.Queue()
+	for i := rng.Intn(3); i > 0; i-- {
+		r.put(1 + rng.Intn(40))
+	}
+	r.w.FailAcquire = func(kind string, _ int64) error {
+		if kind == "cg" {
+			return errInjectedGroup
+		}
+		return nil
+	}
+	for i := 1 + rng.Intn(2); i > 0; i-- {
+		r.createGroup("g1", true)
+	}
+	r.w.FailAcquire = nil
+	if rng.Intn(3) == 0 {
+		r.reopen() // the directory without page file is listed by initConsumerGroups
+		q = r.fq.Queue()
+	}
+	r.ensureGroup("g1") // the retry
+	r.ensureGroup("g2")
+	for i := 2 + rng.Intn(3); i > 0; i-- {
+		r.put(1 + rng.Intn(40))
+	}
+	for i := 1 + rng.Intn(3); i > 0; i-- {
+		r.consume("g1")
+	}
+	r.consume("g2")
+	r.ack("g1", r.groups["g1"].ConsumedSeq()-int64(rng.Intn(2)))
+	r.ack("g2", r.groups["g2"].ConsumedSeq())
+	r.syncGC()
+	for s := int64(0); s <= q.AppendedSeq(); s++ {
+		r.rec.Emit("Get", trace.F{"s": s, "res": getRes(q, r.w, s)})
+	}
+	r.reopen()
+	q = r.fq.Queue()
+	r.ensureGroup("g1")
+	r.ensureGroup("g2")
+	r.put(1 + rng.Intn(40))
+	r.consume("g1")
+	r.consume("g2")
+	// a third group: its first creation fails after appends and a moved queue-wide position, then it is retried
+	r.w.FailAcquire = func(kind string, _ int64) error {
+		if kind == "cg" {
+			return errInjectedGroup
+		}
+		return nil
+	}
+	r.createGroup("g3", true)
+	r.w.FailAcquire = nil
+	r.ensureGroup("g3")
+	r.consume("g3")
+	for i := 0; i < 12; i++ {
+		r.randomOp(false)
+	}
+}
+
 // boundaryHistory: the append position is moved forward (the explicit reset a follower uses) to just
 // below a multiple of the index page capacity (262144 entries), appends land on the LAST slot of an index
 // page, the queue is reopened exactly there, and more appends / reads follow: recovery of the write cursor
@@ -404,7 +548,7 @@ func (r *walRun) boundaryHistory() {
 }
 
 // recoverImage opens the image after k stores with the real code and records what it finds.
-func recoverImage(rec *trace.Recorder, src *walwrap.World, prefix [][]byte, k int, scratch string, nextID *int, resetFields trace.F) error {
+func recoverImage(rec *trace.Recorder, src *walwrap.World, prefix [][]byte, k int, scratch string, nextID *int, resetFields trace.F, groupTail bool) error {
 	dir := filepath.Join(scratch, fmt.Sprintf("img-%d", k))
 	if err := src.Materialise(k, dir); err != nil {
 		return err
@@ -428,6 +572,26 @@ func recoverImage(rec *trace.Recorder, src *walwrap.World, prefix [][]byte, k in
 	// a later append must not alter any earlier message
 	r2.put(7)
 	r2.put(3)
+	if groupTail {
+		// ... and every group the recovered queue has goes on: consume, acknowledge, Sync, GC, reads
+		names := r2.fq.ConsumerGroupNames()
+		sort.Strings(names)
+		for _, n := range names {
+			g, err := r2.fq.GetOrCreateConsumerGroup(n) // in the map: no store
+			if err != nil {
+				rec.Emit("Error", trace.F{"op": "GetGroup", "err": err.Error()})
+				continue
+			}
+			r2.groups[n] = g
+			r2.consume(n)
+			r2.ack(n, g.ConsumedSeq())
+		}
+		r2.syncGC()
+		q := r2.fq.Queue()
+		for _, s := range []int64{0, q.AcknowledgedSeq(), q.AcknowledgedSeq() + 1, q.AppendedSeq()} {
+			rec.Emit("Get", trace.F{"s": s, "res": getRes(q, w2, s)})
+		}
+	}
 	*nextID = r2.nextID
 	r2.fq.Close()
 	return nil
@@ -443,6 +607,8 @@ func walMain(args []string) int {
 	bigs := fs.Int("big", 0, "histories with messages large enough to roll data pages over")
 	bounds := fs.Int("boundary", 0, "histories that reopen the queue on the last slot of an index page")
 	rollfails := fs.Int("rollfail", 0, "histories in which the roll-over to the next data page fails (page acquisition fault)")
+	groupfails := fs.Int("groupfail", 0, "histories in which the creation of a consumer group fails between mkdir and meta page (page acquisition fault), retried / reopened; imaged after every store")
+	groupTail := fs.Bool("grouptail", false, "recovered crash images: every group consumes / acknowledges, Sync, GC, reads")
 	nconc := fs.Int("concurrent", 0, "concurrent-appender histories (gated)")
 	ngconc := fs.Int("groupconc", 0, "histories with one consuming and one acknowledging thread on the same group (gated)")
 	scratch := fs.String("scratch", "", "scratch directory")
@@ -461,15 +627,19 @@ func walMain(args []string) int {
 	sum := &trace.Summary{Module: "WALQueue", Extra: map[string]any{}}
 	nimages, nstores := 0, 0
 	distinct := map[string]bool{}
-	for h := 0; h < *nh+*bigs+*bounds+*rollfails; h++ {
+	for h := 0; h < *nh+*bigs+*bounds+*rollfails+*groupfails; h++ {
 		big := h >= *nh && h < *nh+*bigs
 		boundary := h >= *nh+*bigs && h < *nh+*bigs+*bounds
-		rollfail := h >= *nh+*bigs+*bounds
+		rollfail := h >= *nh+*bigs+*bounds && h < *nh+*bigs+*bounds+*rollfails
+		groupfail := h >= *nh+*bigs+*bounds+*rollfails
 		root := filepath.Join(*scratch, fmt.Sprintf("h%d", h))
 		w := walwrap.NewWorld(root, rec)
 		restore := w.Install()
-		run := &walRun{w: w, rec: rec, rng: rand.New(rand.NewSource(rng.Int63())), image: h < *images || big}
+		run := &walRun{w: w, rec: rec, rng: rand.New(rand.NewSource(rng.Int63())), image: h < *images || big || groupfail}
 		reset := trace.F{"mode": "seq", "h": h, "big": big, "boundary": boundary, "rollfail": rollfail}
+		if groupfail {
+			reset = trace.F{"mode": "groupfail", "h": h}
+		}
 		rec.Reset(reset)
 		rec.Tap = func(b []byte) { run.lines = append(run.lines, append([]byte{}, b...)) }
 		w.OnStore = func(k int) {
@@ -502,6 +672,8 @@ func walMain(args []string) int {
 				run.boundaryHistory()
 			} else if rollfail {
 				run.rollFailHistory()
+			} else if groupfail {
+				run.groupFailHistory()
 			} else {
 				for i := 0; i < n; i++ {
 					run.randomOp(false)
@@ -536,7 +708,7 @@ func walMain(args []string) int {
 		nid := run.nextID + 1000
 		for _, p := range pts {
 			// the reset line itself is part of run.lines? no: Tap is set after Reset
-			if err := recoverImage(rec, w, run.lines[:p.lineN], p.storeK, *scratch, &nid, trace.F{"mode": "image", "h": h, "stores": p.storeK}); err != nil {
+			if err := recoverImage(rec, w, run.lines[:p.lineN], p.storeK, *scratch, &nid, trace.F{"mode": "image", "h": h, "stores": p.storeK}, *groupTail || groupfail); err != nil {
 				sum.Unresolved = append(sum.Unresolved, err.Error())
 			}
 			nimages++
